@@ -295,7 +295,13 @@ func (w *world) send(s *state, plain bool, lbl string, req *types.RotateNodeCred
 	innerFresh := innerKey != "" && s.st.NodeInfo(w.k[innerKey].KeyId) == nil
 	allowed := auth != nil && innerValid && innerFresh
 
-	resp, err := rotation.RotateNodeCredentials(harness.Ctx, storage, req)
+	// a server-wide option list that happens to contain WithState must not
+	// displace the state carried over from the authenticating record
+	var callerOpts []nodeenrollment.Option
+	if strings.HasSuffix(lbl, "|caller-state") {
+		callerOpts = append(callerOpts, nodeenrollment.WithState(harness.Struct(map[string]any{"record": "caller-supplied"})))
+	}
+	resp, err := rotation.RotateNodeCredentials(harness.Ctx, storage, req, callerOpts...)
 	after := ns.st.Snapshot()
 	honoured := err == nil && resp != nil && len(resp.EncryptedFetchNodeCredentialsResponse) > 0
 	desc := fmt.Sprintf("%s on {%s}", lbl, w.keyOf(s))
@@ -419,7 +425,7 @@ type replayData struct {
 func (w *world) apply(s *state, ic initCfg, label string, r *engine.Report) (*state, string, string) {
 	switch {
 	case strings.HasPrefix(label, "rot|"):
-		f := strings.Split(label, "|")
+		f := strings.Split(strings.TrimSuffix(label, "|caller-state"), "|")
 		rq := request{f[1], f[2], f[3]}
 		req, innerKey := w.build(s, rq)
 		if req == nil {
@@ -471,6 +477,12 @@ func labels(c *engine.Ctx) []string {
 			for _, in := range inners {
 				out = append(out, request{s, i, in}.label())
 			}
+		}
+	}
+	// the honest shapes again with a caller-supplied WithState option
+	for _, s := range []string{"cur:K1", "prev:K1", "cur:Kn1"} {
+		for _, i := range []string{"key:K1", "node:X", "key:Kn1"} {
+			out = append(out, request{s, i, "fresh"}.label()+"|caller-state")
 		}
 	}
 	return out
@@ -565,7 +577,7 @@ func init() {
 	engine.Register(&engine.CheckDef{
 		ID:    "C10",
 		Level: "model_checking",
-		Rule: "BFS (quick depth 3, thorough 4) from 11 initial stores (previous key recorded or not; the superseded record still stored before/after its successor; a second record under the node id before/after the first; NodeIdLoader or plain storage) over rotation requests {encrypting key: current of K1/K1b/K2/new key, recorded previous pair, unrelated} x {identification: key id of K1/K2/unknown/new, node id X, unknown node id} x {inner: fresh key, registered K1/K2, token-sized nonce, expired window, wrong signer, not a request}, replays of every honoured payload and removal of old records; " +
+		Rule: "BFS (quick depth 3, thorough 4) from 11 initial stores (previous key recorded or not; the superseded record still stored before/after its successor; a second record under the node id before/after the first; NodeIdLoader or plain storage) over rotation requests {encrypting key: current of K1/K1b/K2/new key, recorded previous pair, unrelated} x {identification: key id of K1/K2/unknown/new, node id X, unknown node id} x {inner: fresh key, registered K1/K2, token-sized nonce, expired window, wrong signer, not a request}, the honest shapes again with a caller-supplied WithState option, replays of every honoured payload and removal of old records; " +
 			"distinct_nontrivial = canonical states reached (records with node id / previous key / state, and the set of honoured payloads)",
 		Assumptions: []string{"removing the record a rotation created and then replaying that rotation is outside the alphabet (the quantifier lists replay and repeated rotation, not revocation)", "forged = encrypted under another pool key"},
 		Shards:      func(c *engine.Ctx) int { return 11 },
